@@ -10,7 +10,7 @@
    curve generator (is_max_of / is_min_of below), not a formula taken on trust.
    Not covered here: wedges (bounds = min/max of the sampled arc), the 1e-7 degree rounding of the
    corner destinations (<= 2 cm: C07 / SphereP5.dest_rounded_within_2cm), float evaluation. *)
-From GV Require Import Prelude SphereM CurveM BoundsCurveM BoundsCurveP2 BoundsCurveP3 BoundsCurveP4 BoundsCurveP5.
+From GV Require Import Prelude SphereM CurveM BoundsCurveM BoundsCurveP2 BoundsCurveP3 BoundsCurveP4 BoundsCurveP5 BoundsCurveP6.
 (* axioms (Print Assumptions, every theorem below): the standard real-number axioms only -
    ClassicalDedekindReals.sig_not_dec, ClassicalDedekindReals.sig_forall_dec,
    FunctionalExtensionality.functional_extensionality_dep, Classical_Prop.classic.
@@ -141,6 +141,53 @@ Theorem C09_vertices_are_curve_points :
                  rad (lon (ellipse_pt s k i)) = ecurve_lon s (ellipse_angle k i)).
 Proof. exact (conj circle_pt_is_curve_point (conj ring_outer_pt_is_curve_point ellipse_pt_is_curve_point)). Qed.
 Print Assumptions C09_vertices_are_curve_points.
+
+(* ---- the same for what the code RETURNS: the corner destinations rounded to 7 decimals (dest_deg_rounded).
+   circle_bounds_rounded / ring_bounds_full_opt / ellipse_bounds_rounded are the definitions that
+   geneq/CurveBoundsGenEq.v proves equal to GeoCircle.bounds / GeoRing.bounds (first branch) / GeoEllipse.bounds as
+   regenerated from the source by tools/gen_curvebounds.py; the rounding costs at most 5.6 mm ---- *)
+Theorem C09_circle_bounds_rounded_match_extents : forall c r N S E W,
+  Rabs (lat c) <= 75 -> 0 <= r <= 10000 ->
+  is_max_of (curve_lat c r) N -> is_min_of (curve_lat c r) S ->
+  is_max_of (curve_lon c r) E -> is_min_of (curve_lon c r) W ->
+  let b := circle_bounds_rounded c r in
+  Rearth * Rabs (rad (rb_maxlat b) - N) <= r / 100 + 56 / 10000 /\
+  Rearth * Rabs (rad (rb_minlat b) - S) <= r / 100 + 56 / 10000 /\
+  Rearth * cos (rad (lat c)) * Rabs (rad (rb_maxlon b) - E) <= r / 100 + 56 / 10000 /\
+  Rearth * cos (rad (lat c)) * Rabs (rad (rb_minlon b) - W) <= r / 100 + 56 / 10000.
+Proof. exact circle_bounds_rounded_match_extents. Qed.
+Print Assumptions C09_circle_bounds_rounded_match_extents.
+
+Theorem C09_ring_bounds_rounded_match_extents : forall (s : ring) b N S E W,
+  ring_bounds_full_opt s = Some b ->
+  Rabs (lat (r_center s)) <= 75 -> 0 <= r_outer s <= 10000 ->
+  is_max_of (curve_lat (r_center s) (r_outer s)) N -> is_min_of (curve_lat (r_center s) (r_outer s)) S ->
+  is_max_of (curve_lon (r_center s) (r_outer s)) E -> is_min_of (curve_lon (r_center s) (r_outer s)) W ->
+  Rearth * Rabs (rad (rb_maxlat b) - N) <= r_outer s / 100 + 56 / 10000 /\
+  Rearth * Rabs (rad (rb_minlat b) - S) <= r_outer s / 100 + 56 / 10000 /\
+  Rearth * cos (rad (lat (r_center s))) * Rabs (rad (rb_maxlon b) - E) <= r_outer s / 100 + 56 / 10000 /\
+  Rearth * cos (rad (lat (r_center s))) * Rabs (rad (rb_minlon b) - W) <= r_outer s / 100 + 56 / 10000.
+Proof. exact ring_bounds_rounded_match_extents. Qed.
+Print Assumptions C09_ring_bounds_rounded_match_extents.
+
+(* the first branch of GeoRing.bounds is taken exactly by the rings whose angle range is at least 360 degrees *)
+Theorem C09_ring_bounds_branch : forall s,
+  (360 <= r_amax s - r_amin s -> ring_bounds_full_opt s = Some (circle_bounds_rounded (r_center s) (r_outer s))) /\
+  (r_amax s - r_amin s < 360 -> ring_bounds_full_opt s = None).
+Proof. exact ring_bounds_full_opt_spec. Qed.
+Print Assumptions C09_ring_bounds_branch.
+
+Theorem C09_ellipse_bounds_rounded_match_extents : forall el N S E W,
+  Rabs (lat (e_center el)) <= 75 -> 0 < e_minor el -> e_minor el <= e_major el -> e_major el <= 10000 ->
+  is_sup_of (ecurve_lat el) N -> is_inf_of (ecurve_lat el) S ->
+  is_sup_of (ecurve_lon el) E -> is_inf_of (ecurve_lon el) W ->
+  let b := ellipse_bounds_rounded el in
+  Rearth * Rabs (rad (rb_maxlat b) - N) <= e_major el / 100 + 56 / 10000 /\
+  Rearth * Rabs (rad (rb_minlat b) - S) <= e_major el / 100 + 56 / 10000 /\
+  Rearth * cos (rad (lat (e_center el))) * Rabs (rad (rb_maxlon b) - E) <= e_major el / 100 + 56 / 10000 /\
+  Rearth * cos (rad (lat (e_center el))) * Rabs (rad (rb_minlon b) - W) <= e_major el / 100 + 56 / 10000.
+Proof. exact ellipse_bounds_rounded_match_extents. Qed.
+Print Assumptions C09_ellipse_bounds_rounded_match_extents.
 
 (* ---- the hypotheses are satisfiable: centre (10, 60), radius 5000 m; ellipse 5000 x 2500 m rotated 25 degrees ---- *)
 Example C09c_nonvacuous :
